@@ -385,3 +385,17 @@ Example C07_event_functions_example :
   /\ summarise_comp (PEdge [SUnpack; SChange 2; SChange 3]) = None (* two compartment changes *)
   /\ summarise_comp (PNode [SChange 3]) = Some (CNode 3).
 Proof. repeat split; vm_compute; reflexivity. Qed.
+
+(* the same for SIvR: infect (the vaccine gate: vaccinated, vaccination time + offset < t, rng.random() > efficacy,
+   the two plain loci) and remove, regenerated from sivr_model.py on every run (Generated EvSrc_SIvR.v) *)
+From EpyV Require Import Model.EvProgV Proofs.EvProgV.
+Theorem C07_sivr_event_functions_from_source : forall p k, vsummarise p = Some k ->
+  forall tbl off0 t e kloci w, vinterp tbl off0 p t e kloci w = vhandler tbl off0 k t e kloci w.
+Proof. exact vsummarise_sound. Qed.
+
+Example C07_sivr_event_functions_example :
+  vsummarise (VGated [SUnpack; SSetAttr] (1 # 4) (3 # 4) [SChange 1; SMarkOcc true; SEnter 3%nat] [SChange 1; SMarkOcc true; SEnter 2%nat])
+  = Some (VInfect 1 (3 # 4) (1 # 4) 2%nat 3%nat)
+  /\ vsummarise (VGated [SUnpack] (1 # 4) (3 # 4) [SChange 1; SMarkOcc true; SEnter 3%nat] [SChange 2; SMarkOcc true; SEnter 2%nat]) = None
+  /\ vsummarise (VPlain (PNode [SChange 2; SSetAttr; SLeave 3%nat; SLeave 2%nat])) = Some (VRemove 2 2%nat 3%nat).
+Proof. repeat split; vm_compute; reflexivity. Qed.
